@@ -61,6 +61,13 @@ def build(ctx, rule):
     # a loop over a literal tuple of (side, sign, adjacency set) rows is read as its two iterations; a sign chosen by a
     # branch and used after it is read inside the branch
     g.write_gfa = inline_access_aliases(desugar_ifexp(fold_consts(sink_into_branches(unroll_const_loops(g.write_gfa)))))
+    from ..core import inline_callable_aliases
+
+    for k in ("add_edge", "remove_edge"):
+        # `attach = n.add_from_start if side == 0 else n.add_from_end; attach(...)` is read as the two calls
+        f_ = getattr(g, k)
+        if any(isinstance(x, ast.IfExp) for x in ast.walk(f_.node)):
+            setattr(g, k, inline_callable_aliases(sink_into_branches(desugar_ifexp(f_))))
     for k in ("remove_edge", "remove_node", "add_node", "add_edge"):
         setattr(g, k, unroll_const_loops(tail_inlined(repo, getattr(g, k), keep=lambda c: c.name in ("add_edge", "remove_edge", "add_node", "remove_node") or c.name.startswith(("add_from_", "remove_from_")))))
     return g
